@@ -340,6 +340,12 @@ def gen_aimed(rng, quick, k):
         for i in range(n):
             ln = rng.choice([0, 1, 2, 4, 6]) if i % 2 == rng.below(2) or rng.chance(1, 4) else rng.range(cols // 2, cols - 2)
             lines.append(''.join(abc[(i * 7 + j) % len(abc)] for j in range(ln)))
+    if shape == 'cput':
+        # windows in which the count * newlines + 1 new lines fit with rows left below them, and windows they overflow
+        rows = rng.choice([4, 5, 6, 8, 10, 12, 16, 24])
+        h = rows - 1
+        n = rng.choice([h, h + 1, h + 3, 2 * h + 1, 3 * h + 2])
+        lines = gen_lines(rng, n, cols, 'plain')
     g = Gen(rng, rows, cols, n)
     e = lambda x: x.encode() if isinstance(x, str) else x
 
@@ -1244,6 +1250,7 @@ def run(ctx):
     res.extra['states'] = len(jobs)
     if WFIX:
         wfix_correspondence(ctx, model, cases, results)
+        put_correspondence(ctx, model, cases, results)
 
 
 def atom_kind(a):
@@ -1327,6 +1334,123 @@ def wfix_correspondence(ctx, model, cases, results):
         if o != want:
             res.disagree({'what': 'new top/left after a motion differ from the vi_wfix / xleft model', 'input': {'case': cases[ci], 'keys': keys_repr(cases[ci], i), 'request': l},
                           'implementation': want, 'model': o})
+
+
+def put_candidates(before, xrow, xoff, after, cnt, cmd):
+    """how a put `[cnt]p` / `[cnt]P` with the cursor at (xrow, xoff) of `before` can have produced `after`:
+    [('l', insertion row, register text)] (line-wise) and [('c', xrow, pref, post, register text)] (character-wise)"""
+    out = []
+    if not before or xrow >= len(before):
+        return out
+    # line-wise: whole lines inserted before row ir
+    ir = xrow + (1 if cmd == b'p' else 0)
+    m = len(after) - len(before)
+    if m >= 1 and m % cnt == 0 and after[:ir] == before[:ir] and after[ir + m:] == before[ir:]:
+        ins = after[ir:ir + m]
+        one = ins[:m // cnt]
+        if one * cnt == ins:
+            out.append(('l', ir, ''.join(l + '\n' for l in one)))
+    # character-wise: the cursor line cut at off = ren_noeol(ln, xoff) + (p on a non-empty line)
+    line = before[xrow]
+    off = min(xoff, max(len(line) - 1, 0)) + (1 if cmd == b'p' and line else 0)
+    pref, post = line[:off], line[off:] + '\n'
+    m = len(after) - len(before) + 1
+    if m >= 1 and after[:xrow] == before[:xrow] and after[xrow + m:] == before[xrow + 1:]:
+        joined = ''.join(l + '\n' for l in after[xrow:xrow + m])
+        if len(joined) > len(pref) + len(post) and joined.startswith(pref) and joined.endswith(post):
+            mid = joined[len(pref):len(joined) - len(post)]
+            if len(mid) % cnt == 0 and mid[:len(mid) // cnt] * cnt == mid:
+                out.append(('c', xrow, pref, post, mid[:len(mid) // cnt]))
+    return out
+
+
+def put_correspondence(ctx, model, cases, results):
+    """model vs code: for a put command `["x][count]p|P` the extracted vc_put / vi_drawfix of coq/DrawPutDefs.v, DrawDefs.v
+    (text handed to lbuf_edit, lines it is cut into, vi_drawfix(r1, r2, n), the partial redraw applied to the rows that
+    were on the screen) predict the lines that appear in the buffer and the rows the terminal shows afterwards.  Rows are
+    abstract for the model (integer ids of rendered rows).  Judged when the window did not move (same top/left)."""
+    res = ctx.res
+    lines, meta = [], []
+    for (ci, pr), r in results.items():
+        i = pr[1]
+        if pr[0] != 'cmd' or i == 0 or r['status'] not in ('ok', 'fail') or 'st' not in r or r.get('buf') is None:
+            continue
+        c = cases[ci]
+        pc = put_cmd(bytes.fromhex(c['atoms'][i - 1]))
+        if not pc:
+            continue
+        p = results.get((ci, ('cmd', i - 1)))
+        if not p or p['status'] != 'ok' or p.get('top') is None or p.get('left') is None:
+            continue
+        if (p.get('split'), p.get('act')) != (r.get('split'), r.get('act')) or not renderable(r['buf']) or not renderable(p['buf']):
+            continue
+        (woff, h), _ = geometry(c['rows'], r.get('split'), r.get('act'))
+        cols = c['cols']
+        top, left = p['top'], p['left']
+        if r['status'] == 'ok':
+            if (r.get('top'), r.get('left')) != (top, left):
+                continue            # vi_wfix / the xleft rule moved the window: the tail of vi() repainted
+        else:
+            # a state the oracle rejects: compare it with the model too if the cursor stayed inside the old window
+            pos, wid = cursor_cells(r['buf'], r['xrow'], r['xoff'])
+            if 'not a window' not in r.get('what', '') or not (top <= r['xrow'] < top + h) or not (left <= pos and pos + wid <= left + cols):
+                continue
+        if not unique_window(p, woff, h, cols):
+            continue
+        _, cnt, cmd = pc
+        cands = put_candidates(p['buf'], p['xrow'], p['xoff'], r['buf'], cnt, cmd)
+        if not cands:
+            res.count('vc_put correspondence: put not explained by one register (failed put, empty register, empty buffer)')
+            ex = res.extra.setdefault('put_not_explained_examples', [])
+            if len(ex) < 12 and p['buf'] != r['buf']:
+                ex.append({'keys': keys_repr(c, i), 'cursor before': [p['xrow'], p['xoff']], 'before': p['buf'][max(0, p['xrow'] - 1):p['xrow'] + 2],
+                           'after': r['buf'][max(0, p['xrow'] - 1):p['xrow'] + 6]})
+            continue
+        ids = {}
+        idof = lambda row: ids.setdefault(tuple(row), len(ids))
+        olds = [idof(x) for x in p['st']['cp'][woff:woff + h]]
+        news = [idof(render(row_text(r['buf'], top + k), left, cols)) for k in range(h)]
+        seen = [idof(x) for x in r['st']['cp'][woff:woff + h]]
+        hxs = lambda t: vlib.hx(t.encode('utf-8'))
+        for cd in cands:
+            if cd[0] == 'l':
+                req = 'put l %d %d %d %d - - %s' % (h, top, cd[1], cnt, hxs(cd[2]))
+            else:
+                req = 'put c %d %d %d %d %s %s %s' % (h, top, cd[1], cnt, hxs(cd[2]), hxs(cd[3]), hxs(cd[4]))
+            lines.append(req + ' %s %s' % (','.join(map(str, olds)), ','.join(map(str, news))))
+            meta.append((ci, i, cd, seen, r))
+    if not lines:
+        return
+    rc, out, err = vlib.run_lines(model, lines, timeout=300)
+    if rc != 0 or len(out) != len(lines):
+        res.disagree({'what': 'model_term put requests failed', 'stderr': err[-500:]})
+        return
+    verdicts = {}
+    for (ci, i, cd, seen, r), o, l in zip(meta, out, lines):
+        head, _, rows = o.partition('|')
+        w = head.split(' ')
+        mlines = [vlib.unhx(x).decode('utf-8', 'replace') for x in w[3].split(',')] if len(w) > 3 and w[3] else []
+        r1, n = int(w[0]), int(w[2])
+        buf = r['buf']
+        want_lines = buf[r1:r1 + len(mlines)]
+        want_n = len(mlines) + (1 if cd[0] == 'l' else 0)
+        ok = mlines == want_lines and n == want_n and [int(x) for x in rows.split(',')] == seen
+        verdicts.setdefault((ci, i), []).append((ok, cd, l, o, seen))
+    for (ci, i), vs in verdicts.items():
+        res.count('vc_put/vi_drawfix correspondence cases')
+        cd = vs[0][1]
+        reg = cd[2] if cd[0] == 'l' else cd[4]
+        cnt = put_cmd(bytes.fromhex(cases[ci]['atoms'][i - 1]))[1]
+        if cd[0] == 'c' and '\n' in reg:
+            res.count('vc_put correspondence: character-wise register with newlines' + (', count >= 2' if cnt > 1 else ''))
+        elif cd[0] == 'l' and cnt > 1:
+            res.count('vc_put correspondence: line-wise register, count >= 2')
+        if any(v[0] for v in vs):
+            continue
+        ok, cd, l, o, seen = vs[0]
+        res.disagree({'what': 'the rows shown after a put differ from vi_drawfix applied with the arguments of the vc_put model (or the lines / line count differ)',
+                      'input': {'case': cases[ci], 'keys': keys_repr(cases[ci], i), 'request': l, 'explanation': list(cd)},
+                      'implementation': ','.join(map(str, seen)), 'model': o})
 
 
 def unique_window(r, woff, h, cols):
